@@ -125,7 +125,30 @@ def check_iter(tracks, it, tpb):
         total += du * unit
     if not close(length, total):
         return 'length', 'length %r expected %r' % (length, float(total))
-    # the originals are not modified (copies are yielded)
+    # the tempo map is whatever the file holds NOW: change every set_tempo in place (the
+    # file has been iterated and measured above) and measure again
+    ticks = max([sum(dt for dt, k in tr) for tr in tracks] or [0])
+    for tempo in (250000, 500000, 3):
+        n = 0
+        for tr in mid.tracks:
+            for m in tr:
+                if m.type == 'set_tempo':
+                    m.tempo = tempo
+                    n += 1
+        if not n:
+            break
+        # every set_tempo now has the same value; before the first one the default applies
+        first = min(sum(dt for dt, k in tr[:i + 1]) for tr in tracks for i, (d_, k) in enumerate(tr)
+                    if k.startswith('t'))
+        exp = (Fraction(first) * 500000 + Fraction(ticks - first) * tempo) * unit
+        try:
+            length2 = mid.length
+            total2 = sum(m.time for m in mid)
+        except Exception as e:
+            return 'iter-raises-after-edit/' + type(e).__name__, repr(e)
+        if not close(length2, exp) or not close(total2, exp):
+            return ('length-after-tempo-edit', 'after setting every set_tempo to %d in place: length %r, '
+                    'sum of times %r, expected %r' % (tempo, length2, total2, float(exp)))
     return None
 
 
@@ -301,3 +324,6 @@ CHECK_DEADLOCK FALSE
         'tick2second/second2tick inverse is evaluated by the driver (IEEE-754 rounding is not expressible in TLA+); the specification contributes nothing there',
         'the clock passed to play() and time.sleep are virtual; consumer delays are {0, 1000, 60000000} us*tick',
     ]
+    # re-entrancy: two threads inside these functions at once, a switch possible before every statement
+    from .. import conc
+    conc.run_scenarios(ctx, 'C13', 2 if ctx.tier == 'thorough' else 1)
